@@ -1,6 +1,7 @@
 package props
 
 import (
+	"crypto/tls"
 	"fmt"
 	"sort"
 	"strings"
@@ -14,7 +15,23 @@ import (
 
 func init() { Scenarios["C15"] = c15 }
 
+// c15BehindOneAddress: in some runs every host is reached through one address and told apart by
+// its key only (the shape of Astra endpoints: the SNI proxy's address plus the node's host id).
+// A host's identity is its Key(), never where it is dialled.
+var c15BehindOneAddress bool
+
+type sniLikeEndpoint struct{ addr, id string }
+
+func (e sniLikeEndpoint) String() string         { return e.addr + "/" + e.id }
+func (e sniLikeEndpoint) Addr() string           { return e.addr }
+func (e sniLikeEndpoint) IsResolved() bool       { return true }
+func (e sniLikeEndpoint) TLSConfig() *tls.Config { return nil }
+func (e sniLikeEndpoint) Key() string            { return e.addr + "#" + e.id }
+
 func lbHost(i int) *proxycore.Host {
+	if c15BehindOneAddress {
+		return &proxycore.Host{Endpoint: sniLikeEndpoint{"10.9.0.1:29042", fmt.Sprintf("host-%02d", i+1)}, DC: "dc1"}
+	}
 	return &proxycore.Host{Endpoint: proxycore.NewEndpoint(fmt.Sprintf("10.0.0.%d:9042", i+1)), DC: "dc1"}
 }
 
@@ -267,6 +284,10 @@ func c15(e *Env) {
 	w := world.New(cfg, e.S, e.N, e.C)
 	e.W = w
 	c := e.C
+	c15BehindOneAddress = c.Choose("c15-hosts-behind-one-address", 3) == 2
+	if c15BehindOneAddress {
+		e.Res.Stats["probe.c15.hosts_behind_one_address"]++
+	}
 
 	// (b) one long random history, sequential, inside the simulation
 	nHosts := 2 + c.Choose("lbhosts", 4)
